@@ -75,3 +75,94 @@ def matches(path, point):
 def evaluate(paths, point):
     """Paths consistent with the abstract point (ideally exactly one)."""
     return [p for p in paths if p.end == "ret" and not p.unknown and matches(p, point)]
+
+
+# ---------------------------------------------------------------------- direct evaluation on an abstract point
+
+def eval_point(tree, point, recognise, classify):
+    """Set of classified results the function can return on an abstract input point. Switches whose
+    condition is recognised are decided by the point; `("ignore",)` conditions are explored both ways
+    (memoised: the continuation of an ignored switch is evaluated once); unrecognised conditions make the
+    result contain ("?", text)."""
+    memo = {}
+
+    def decide(d, n):
+        rec = recognise(d)
+        if rec is None:
+            return "unknown"
+        if rec[0] == "ignore":
+            return None
+        labs = list(n[2].keys())
+        if rec[0] == "pred":
+            if rec[1] not in point:
+                return None
+            truth = point[rec[1]] if rec[2] else (not point[rec[1]])
+            val = 1 if truth else 0
+        elif rec[0] == "cmp":
+            if rec[1] not in point:
+                return None
+            val = 1 if _cmp(rec[2], point[rec[1]], rec[3]) else 0
+        elif rec[0] == "discr":
+            if rec[1] not in point:
+                return None
+            val = point[rec[1]]
+        else:
+            return None
+        for lab in labs:
+            if lab != "else" and val in lab:
+                return lab
+        return "else" if "else" in n[2] else "infeasible"
+
+    def run(seq, i, cont, depth):
+        key = (id(seq), i, tuple((id(c[0]), c[1]) for c in cont))
+        if key in memo:
+            return memo[key]
+        memo[key] = set()
+        out = set()
+        while True:
+            if i >= len(seq):
+                if not cont:
+                    out.add(("end",))
+                    break
+                (seq, i, depth), cont = cont[0], cont[1:]
+                continue
+            n = seq[i]
+            k = n[0]
+            if k == "switch":
+                d = unstamp(n[1])
+                lab = decide(d, n)
+                if lab == "unknown":
+                    out.add(("?", show(d)[:80]))
+                    break
+                if lab == "infeasible":
+                    break
+                labs = [lab] if lab is not None else list(n[2].keys())
+                for l in labs:
+                    out |= run(n[2][l], 0, ((seq, i + 1, depth),) + cont, depth)
+                break
+            if k == "inlined":
+                out |= run(n[3], 0, ((seq, i + 1, depth),) + cont, depth + 1)
+                break
+            if k == "ret":
+                if depth == 0:
+                    out.add(classify(unstamp(n[1])))
+                    break
+                if not cont:
+                    out.add(("end",))
+                    break
+                (seq, i, depth), cont = cont[0], cont[1:]
+                continue
+            if k == "panic":
+                out.add(("panic", n[1]))
+                break
+            if k in ("unreachable",):
+                break
+            if k == "backedge":
+                # leave the loop: continue after it (the loop's effect on the result is through opaque values)
+                i += 1
+                continue
+            i += 1
+        memo[key] = out
+        return out
+
+    return run(tree, 0, (), 0)
